@@ -527,4 +527,30 @@ def liquidate (cfg : Cfg) (s : St) (keeper borrower : User) : Res St :=
           aucs := z.aucs
           bal := bal2 }
 
+/-! ### governance: money markets listed, replaced and delisted through the params
+
+  The money markets (and the minimum borrow value) are the `Cfg` every step takes as its own argument, so a params
+  change is a change of `cfg` between two steps and touches no component of `St` (`SetParams` writes the params
+  subspace only).  The params reach the store in the begin blocker, interest.go `ApplyInterestRateUpdates`:
+  * for every money market of the params: if the denom has none in the store the params' one is written (listing), then
+    `AccrueInterest(denom)` runs with the market now in the store, then the store's market is replaced if the params differ;
+  * for every money market in the store that is no longer in the params: `AccrueInterest(denom)` with the store's market,
+    then the market is deleted (delisting).  Deposits, borrows, totals, interest factors and the accrual time stay.
+  * a denom with a market in neither is not visited.
+  Hence per denom: `live d` (a market in the params or in the store) ⇒ one `accrue` with the effective market
+  (`cfg.mkt d`: the store's, else the params'), otherwise nothing.  The iterations touch disjoint entries, so the
+  params-then-store order of the Go loops is immaterial; an error of `AccrueInterest` is a Go `panic(err)`.
+  While a denom has no money market the user messages fail wherever they look the market up: every such lookup is
+  immediately followed by the price lookup with the same control flow, so the driver represents "no market" as price 0
+  and reads `priceNotFound` / `noValidPrice` as `marketNotFound` (`Deposit`: `invalidDepositDenom`). -/
+def applyRateUpdates (cfg : Cfg) (now : Int) (live : Denom → Bool) (phi : Denom → Dec) (apy : Denom → Bool) :
+    List Denom → St → Res St
+  | [], s => .ok s
+  | d :: t, s =>
+    if live d then
+      match accrue cfg s d now (phi d) (apy d) with
+      | .ok s1 => applyRateUpdates cfg now live phi apy t s1
+      | _ => .panic
+    else applyRateUpdates cfg now live phi apy t s
+
 end KV.Hard
